@@ -6,7 +6,10 @@ use types::{BitString, OctetString, Optionality};
 use utils::types::SequenceOrSetOf;
 
 use crate::{
-    common::{INTERNAL_EXTENSION_GROUP_NAME_PREFIX, INTERNAL_NESTED_TYPE_NAME_PREFIX},
+    common::{
+        INTERNAL_EXTENSION_GROUP_NAME_PREFIX, INTERNAL_ITEM_TYPE_NAME_PREFIX,
+        INTERNAL_NESTED_TYPE_NAME_PREFIX,
+    },
     intermediate::{
         constraints::Constraint,
         encoding_rules::per_visible::{
@@ -134,6 +137,18 @@ fn time_value_to_rfc3339(value: &str) -> Option<String> {
 }
 
 impl Rasn {
+    /// The Rust name of a type that the linker has recorded in a value: the name of a type
+    /// assignment, or the internal name of the item type of a `SEQUENCE OF` / `SET OF` assignment
+    pub(crate) fn linked_type_name_to_tokens(&self, name: &str) -> TokenStream {
+        match name.strip_prefix(INTERNAL_ITEM_TYPE_NAME_PREFIX) {
+            Some(array_like) => {
+                let array_like = self.linked_type_name_to_tokens(array_like).to_string();
+                format_ident!("Anonymous{array_like}").to_token_stream()
+            }
+            None => self.to_rust_title_case(name),
+        }
+    }
+
     pub(crate) fn inner_name(&self, name: &str, parent_name: &str) -> Ident {
         format_ident!(
             "{}{}",
@@ -859,7 +874,7 @@ impl Rasn {
                         .to_token_stream())
                 }
             } else {
-                Ok(self.to_rust_title_case(t))
+                Ok(self.linked_type_name_to_tokens(t))
             }).transpose()?;
                 if let Some(ty_n) = rust_ty_name.as_ref().or(type_name) {
                     let option = self.to_rust_enum_identifier(i);
@@ -963,7 +978,7 @@ impl Rasn {
                 fn nester(generator: &Rasn, s: TokenStream, mut types: Vec<String>) -> TokenStream {
                     match types.pop() {
                         Some(t) => {
-                            let ident = generator.to_rust_title_case(&t);
+                            let ident = generator.linked_type_name_to_tokens(&t);
                             nester(generator, quote!(#ident(#s)), types)
                         }
                         None => s,
@@ -975,7 +990,7 @@ impl Rasn {
                 let root_type = matches!(**value, ASN1Value::LinkedStructLikeValue(_))
                     .then(|| wrappers.pop())
                     .flatten()
-                    .map(|root| self.to_rust_title_case(&root));
+                    .map(|root| self.linked_type_name_to_tokens(&root));
                 Ok(nester(
                     self,
                     self.value_to_tokens(value, root_type.as_ref().or(type_name))?,
